@@ -353,20 +353,9 @@ class Interp:
 
     def _load_toplevel(self, m: ModuleVal, s: ast.stmt):
         if isinstance(s, ast.FunctionDef):
-            fv = self._decorate(FuncVal(s, m), s, m)
-            decs = [ast.unparse(d) for d in s.decorator_list]
-            if any(d.endswith("singledispatch") for d in decs):
-                fv = DispatchVal(fv, s.name)
-            reg = False
-            for d in s.decorator_list:
-                if (isinstance(d, ast.Call) and isinstance(d.func, ast.Attribute) and d.func.attr == "register"
-                        and isinstance(d.func.value, ast.Name) and d.args):
-                    target = m.globals.get(d.func.value.id)
-                    if isinstance(target, DispatchVal):
-                        target.registry.append((d.args[0], fv, m))
-                        reg = True
-            if not reg or s.name not in m.globals:
-                m.globals[s.name] = fv
+            val, registered = self._apply_decorators(FuncVal(s, m), s, m, Frame(m, {}))
+            if not registered or s.name not in m.globals:
+                m.globals[s.name] = val
         elif isinstance(s, ast.ClassDef):
             m.globals.setdefault("__lazycls__", {})[s.name] = s
         elif isinstance(s, (ast.If, ast.Try)):
@@ -383,6 +372,38 @@ class Interp:
             m.globals.setdefault("__lazy__", {})[s.targets[0].id] = s.value
         elif isinstance(s, ast.AnnAssign) and isinstance(s.target, ast.Name) and s.value is not None:
             m.globals.setdefault("__lazy__", {})[s.target.id] = s.value
+
+    NOOP_DECORATORS = ("_with_attrs", "_basilisp_fn", "functools.wraps", "wraps(", "lru_cache", "contextmanager")
+
+    def _apply_decorators(self, fv, node, m, fr):
+        """apply a function definition's decorators bottom-up, as Python does"""
+        val = fv
+        registered = False
+        for d in reversed(node.decorator_list):
+            dn = ast.unparse(d)
+            if dn.endswith("singledispatch"):
+                val = DispatchVal(val, node.name)
+            elif (isinstance(d, ast.Call) and isinstance(d.func, ast.Attribute) and d.func.attr == "register"
+                  and isinstance(d.func.value, ast.Name) and d.args and isinstance(m.globals.get(d.func.value.id), DispatchVal)):
+                m.globals[d.func.value.id].registry.append((d.args[0], val, m))
+                registered = True
+            elif dn.endswith("_trampoline"):
+                if isinstance(val, FuncVal):
+                    val.trampoline = True
+            elif any(k in dn for k in self.NOOP_DECORATORS) or dn in ("staticmethod", "property", "classmethod"):
+                continue
+            else:
+                dec = self.eval(d, fr)
+                val = self.call(dec, [val])
+        return val, registered
+
+    def module_from_source(self, key: str, src: str) -> "ModuleVal":
+        """a pseudo-module whose top level is `src` (used for the compiler's generated Python)"""
+        m = ModuleVal(key, self)
+        self.modules[key] = m
+        for s_ in ast.parse(src).body:
+            self._load_toplevel(m, s_)
+        return m
 
     def _decorate(self, fv, node, m):
         for d in node.decorator_list:
@@ -509,7 +530,15 @@ class Interp:
         if isinstance(f, StaticMethodVal):
             return self.call(f.fn, args, kwargs)
         if isinstance(f, FuncVal):
-            return self.call_func(f, args, kwargs)
+            r = self.call_func(f, args, kwargs)
+            if getattr(f, "trampoline", False):
+                n = 0
+                while hasattr(r, "trampoline_args"):
+                    n += 1
+                    if n > self.unwind:
+                        raise UnwindingExceeded(f"trampoline of {f.name} exceeded {self.unwind} bounces")
+                    r = self.call_func(f, list(r.trampoline_args()), {})
+            return r
         if isinstance(f, ClassVal):
             return self.instantiate(f, args, kwargs)
         if isinstance(f, DispatchVal):
@@ -767,7 +796,8 @@ class Interp:
             self.call(self.getattr(cm, "__exit__"), [None, None, None])
 
     def x_FunctionDef(self, s, fr):
-        fr.env[s.name] = FuncVal(s, fr.module, closure=fr.env, cls=fr.cls)
+        val, _ = self._apply_decorators(FuncVal(s, fr.module, closure=fr.env, cls=fr.cls), s, fr.module, fr)
+        fr.env[s.name] = val
 
     # ---- expressions
     def eval(self, e: ast.expr, fr: "Frame"):
